@@ -81,6 +81,29 @@ class Extractor:
         self.local_funcs: Dict[str, ast.AST] = {}
         self.local_prefix = local_prefix
 
+    def learn(self, cond):
+        """Record range facts that hold after a validation `if <cond>: raise` (used by interval analysis)."""
+        if not hasattr(self, "constraints"):
+            self.constraints = []
+        if cond[0] == "not" and cond[1][0] == "not":
+            return self.learn(cond[1][1])
+        if cond[0] == "and":
+            for c in cond[1]:
+                self.learn(c)
+            return
+        if cond[0] == "not" and cond[1][0] == "or":
+            for c in cond[1][1]:
+                self.learn(("not", c))
+            return
+        if cond[0] == "cmp":
+            op, a, b = cond[1], cond[2], cond[3]
+            if is_num(a) and not is_num(b):
+                op = {"<=": ">=", "<": ">", ">=": "<=", ">": "<"}.get(op, op)
+                a, b = b, a
+            if is_num(b) and op in ("<=", "<", ">=", ">"):
+                lo, hi = (-math.inf, b[1]) if op in ("<=", "<") else (b[1], math.inf)
+                self.constraints.append((a, lo, hi))
+
     # ---------------------------------------------------------------- names / calls
     def resolve(self, e: ast.AST) -> Optional[str]:
         if self.scope is not None:
@@ -216,6 +239,9 @@ class Extractor:
                 ng = [y for y in x[2] if y[0] == "neg"][0][1]
                 lo, hi = sorted([pos, ng], key=repr)     # |a - b| == |b - a|
                 return ("call", "abs", (("op", "+", (lo, ("neg", hi))),))
+        if q == "builtins.isinstance" and len(args) == 2:
+            classes = args[1][1] if args[1][0] == "tuple" else (args[1],)
+            return ("call", "isinstance", (args[0], ("op", "classes", tuple(classes))))   # class set: unordered
         if q in FUNC_ALIASES:
             return ("call", FUNC_ALIASES[q], tuple(args))
         if q is not None:
@@ -269,12 +295,16 @@ class Extractor:
                 if ret_t is not None and ret_f is not None:
                     return env, ite(cond, fold_pending(pend_t, ret_t), fold_pending(pend_f, ret_f)), pend
                 if ret_t is not None:
+                    if ret_t == RAISE and not pend_t:
+                        self.learn(("not", cond))
                     pend.append((cond, fold_pending(pend_t, ret_t)))
                     pend += [(("and", (ncond, pc)), pv) for pc, pv in pend_f]
                     env.clear()
                     env.update(env_f)
                     continue
                 if ret_f is not None:
+                    if ret_f == RAISE and not pend_f:
+                        self.learn(cond)
                     pend.append((ncond, fold_pending(pend_f, ret_f)))
                     pend += [(("and", (cond, pc)), pv) for pc, pv in pend_t]
                     env.clear()
@@ -298,6 +328,14 @@ class Extractor:
                 continue
             if isinstance(st, (ast.Import, ast.ImportFrom, ast.Pass)):
                 continue
+            if isinstance(st, ast.For) and isinstance(st.iter, (ast.Tuple, ast.List)) and len(st.iter.elts) <= 8 and isinstance(st.target, ast.Name) \
+                    and not st.orelse and not any(isinstance(x, (ast.Break, ast.Continue)) for b in st.body for x in ast.walk(b)):
+                unrolled = []
+                for elt in st.iter.elts:
+                    unrolled.append(ast.Assign(targets=[ast.Name(id=st.target.id, ctx=ast.Store())], value=elt, lineno=st.lineno))
+                    unrolled += st.body
+                env2, ret, pend2 = self._block(unrolled + list(stmts[i + 1:]), env)
+                return env2, ret, pend + pend2
             if isinstance(st, ast.Try) and not st.finalbody and not st.orelse and all(
                     len(h.body) == 1 and isinstance(h.body[0], ast.Raise) for h in st.handlers):
                 # try: <computation> except ...: raise ...   -- the handlers only convert the exception
